@@ -26,7 +26,7 @@ func (h seqHooks) Go(f func())                    { go f() }
 func (h seqHooks) Woke()                          {}
 func (h seqHooks) SelectPref(n int) int           { return 0 }
 func (h seqHooks) RandRead(b []byte) (int, error) {
-	copy(b, h.env.C.Bytes("rand", len(b)))
+	copy(b, h.env.randBytes(len(b)))
 	return len(b), nil
 }
 func (h seqHooks) Perm(kind string, n int) []int { return h.env.C.Perm(kind, n) }
